@@ -499,6 +499,20 @@ pub fn run_body(p: &'static Prog, t: &'static Table, b: usize, my_waker: Option<
                 }
                 _ => bad("not a cell"),
             },
+            Op::CellNested(u, k) => match &t.objs[*u] {
+                // an access to the cell from inside another access by the same thread:
+                // 0 = write in read, 1 = read in write, 2 = write in write, 3 = read in read
+                Obj::Cell(c) => {
+                    let v = match k {
+                        0 => c.with(|_| c.with_mut(|p| unsafe { *p })),
+                        1 => c.with_mut(|_| c.with(|p| unsafe { *p })),
+                        2 => c.with_mut(|_| c.with_mut(|p| unsafe { *p })),
+                        _ => c.with(|_| c.with(|p| unsafe { *p })),
+                    };
+                    res(v.to_string());
+                }
+                _ => bad("not a cell"),
+            },
             Op::Yield => {
                 loom::thread::yield_now();
                 res("-".into());
